@@ -25,6 +25,7 @@ def check(run):
     run.attempt(chain, run, p)
     run.attempt(dkeys, run, p)
     run.attempt(locate, run, p)
+    run.attempt(ownmeta, run, p)
     run.attempt(types, run, p)
     run.attempt(isolang, run, p)
     run.attempt(precedence, run, p)
@@ -535,3 +536,49 @@ def titles(run, p):
         run.ob('C16-TITLES', '%s::%s::titles:%s' % (f.rel, f.short, what), got == want,
                'titles given as %s (%r) are kept as %r' % (what, given, got), fn=f)
     run.floor('C16-TITLES', n, 7)
+
+
+def ownmeta(run, p):
+    """the metadata found for a data file is that file's own"""
+    from ..pyeval import Interp, Unsupported, Raised, FakeFS
+    run.rule('C16-OWNMETA', 'a CSV file is read with its own metadata: find_associated_metadata_file, evaluated on an in-memory directory '
+                            'for data files with plain, dotted and dashed names (sales.csv, sales.eu.csv, readings.2024.csv, a-b.csv), '
+                            'returns the metadata file named after the whole file name minus its last extension when there is one - '
+                            'also when a sibling with a shorter name (sales-metadata.json next to sales.eu.csv) has metadata too - and '
+                            'None when only the sibling has')
+    f = p.fn('tdda.serial.utils.find_associated_metadata_file')
+    m = p.mod('tdda.serial.utils')
+    try:
+        styles = p.const(m, 'METADATA_STYLES')
+    except AnalysisError:
+        raise AnalysisError('METADATA_STYLES not found')
+    suffixes = [(sx, ex) for sxs, exs in styles for sx in sxs for ex in exs]
+    if len(suffixes) < 3:
+        raise AnalysisError('METADATA_STYLES holds %d spellings' % len(suffixes))
+    n = 0
+    for stem, sibling in (('sales', None), ('sales.eu', 'sales'), ('readings.2024', 'readings'), ('a-b', 'a'), ('v1.2.3.final', 'v1')):
+        for sx, ex in (suffixes[0], suffixes[len(suffixes) // 2], suffixes[-1]):
+            own = '/d/%s%s%s' % (stem, sx, ex)
+            sib = '/d/%s%s%s' % (sibling, sx, ex) if sibling else None
+            for have_own, have_sib in ((True, True), (True, False), (False, True)):
+                if sib is None and have_sib:
+                    continue
+                files = {'/d/%s.csv' % stem: 'a\n1\n'}
+                if have_own:
+                    files[own] = '{}'
+                if have_sib:
+                    files[sib] = '{}'
+                fs = FakeFS(files)
+                I = Interp(p)
+                I.extra_names.update({'os': fs.os(path_expanduser=lambda q: q)})
+                try:
+                    got = I.call(f, ['/d/%s.csv' % stem], {})
+                except Unsupported as e:
+                    raise AnalysisError('find_associated_metadata_file is not evaluable: %s' % e)
+                except Raised as e:
+                    got = 'raises %s' % e
+                want = own if have_own else None
+                n += 1
+                run.ob('C16-OWNMETA', '%s.csv%s%s:%s%s' % (stem, sx, ex, 'own' if have_own else '', '+sibling' if have_sib else ''), got == want,
+                       '%s.csv with %s present: finds %r, its own metadata would be %r' % (stem, sorted(k for k in files if not k.endswith('.csv')), got, want), fn=f)
+    run.floor('C16-OWNMETA', n, 30)
